@@ -397,25 +397,24 @@ structure Msg (α : Type) where
   trailer : Option α
 deriving Repr, DecidableEq
 
-def encChunks : List (List Nat) → Option (List Nat)
+/-- Concatenation of encoded raw frames `(type, payload)`. -/
+def encRaw : List (Nat × List Nat) → Option (List Nat)
   | [] => some []
-  | c :: cs =>
-    match encFrame frameTypeData c, encChunks cs with
+  | (t, p) :: rs =>
+    match encFrame t p, encRaw rs with
     | some a, some b => some (a ++ b)
     | _, _ => none
 
-/-- `encode`: HEADERS, one DATA frame per chunk of the given chunking, optional trailing HEADERS. -/
+/-- Raw frames of a message: HEADERS, one DATA frame per chunk of the given chunking, optional trailing HEADERS. -/
+def rawOfMsg {α : Type} (encF : α → List Nat) (fields : α) (chunks : List (List Nat)) (trailer : Option α) :
+    List (Nat × List Nat) :=
+  (frameTypeHeaders, encF fields) :: (chunks.map fun c => (frameTypeData, c)) ++
+    (match trailer with | some t => [(frameTypeHeaders, encF t)] | none => [])
+
+/-- `encode`. -/
 def encodeMsg {α : Type} (encF : α → List Nat) (fields : α) (chunks : List (List Nat)) (trailer : Option α) :
     Option (List Nat) :=
-  match encFrame frameTypeHeaders (encF fields), encChunks chunks with
-  | some h, some d =>
-    match trailer with
-    | none => some (h ++ d)
-    | some t =>
-      match encFrame frameTypeHeaders (encF t) with
-      | some tb => some (h ++ d ++ tb)
-      | none => none
-  | _, _ => none
+  encRaw (rawOfMsg encF fields chunks trailer)
 
 /-- Body and trailers out of the raw frames that follow the leading HEADERS frame. -/
 def decRest {α : Type} (decF : List Nat → Option α) : List (Nat × List Nat) → Option (List Nat × Option α)
